@@ -258,6 +258,20 @@ def retry_after_missing(root, real, main, want):
     return None
 
 
+OOD = "out-of-domain"
+
+
+def not_finite(x):
+    """some number in the canonical structure is inf or nan"""
+    if isinstance(x, (list, tuple)):
+        return any(not_finite(y) for y in x)
+    if isinstance(x, dict):
+        return any(not_finite(y) for y in x.values())
+    if isinstance(x, (float, complex)):
+        return x != x or abs(x) == float("inf")
+    return False
+
+
 def check_tree(files, main, inlined, proc_dirs, model_lines=None, extras=0):
     root, real = materialise(files)
     try:
@@ -266,6 +280,8 @@ def check_tree(files, main, inlined, proc_dirs, model_lines=None, extras=0):
         ib, ob = core.impl_canon_loads(inlined)
         if ib[0] != "prog":
             return "inlined script is refused with %s: %r" % (ib[1:3], ob)
+        if not_finite(ib[1]["ops"]):
+            return OOD                         # a division by zero in the generated arithmetic: no finite value
         for pd, absolute in proc_dirs:
             pc = os.path.join(root, pd) if pd else root
             os.makedirs(pc, exist_ok=True)
@@ -293,8 +309,9 @@ def check_tree(files, main, inlined, proc_dirs, model_lines=None, extras=0):
 
 def replay(ctx, data):
     if data.get("kind") == "tree":
-        return check_tree(data["files"], data["main"], data["inlined"], [tuple(x) for x in data["proc_dirs"]],
-                          extras=data.get("extras", 0))
+        msg = check_tree(data["files"], data["main"], data["inlined"], [tuple(x) for x in data["proc_dirs"]],
+                         extras=data.get("extras", 0))
+        return None if msg == OOD else msg
     return oracles.generic_replay(data)
 
 
@@ -322,7 +339,10 @@ def run(ctx):
         if extras & 2:
             ctx.count("retry after a missing include")
         msg = check_tree(files, main, inlined, proc_dirs, lines, extras)
-        if msg:
+        if msg == OOD:
+            ctx.ood += 1
+            ctx.count("ood:division-by-zero")
+        elif msg:
             ctx.violation("include: " + msg, {"kind": "tree", "files": files, "main": main, "inlined": inlined,
                                               "proc_dirs": proc_dirs, "extras": extras})
     outs = core.model_batch([l for l, _ in lines])
